@@ -63,7 +63,24 @@ class Env:
             mh.register("CompletePingCheck")
             mh.register("ChatFromSimulator")
             ev_.subscribe(lambda m, lvl=lvl: self.got_named[lvl].append((m.packet_id, m.name)))
+        # coroutine subscribers (two per level): each is run once per delivery, like any other subscriber
+        self.got_async = {"session": {"a1": [], "a2": []}, "region": {"a1": [], "a2": []}}
+        for lvl, mh in (("session", self.sh), ("region", self.rh)):
+            for nm in ("a1", "a2"):
+                async def _sub(m, lvl=lvl, nm=nm):
+                    self.got_async[lvl][nm].append(m.packet_id)
+                mh.subscribe("*", _sub)
         self.seen = 0
+
+    def recv(self, data):
+        """one datagram arrives (inside the running loop, so that coroutine subscribers get scheduled and run)"""
+        async def go():
+            try:
+                self.proto.datagram_received(data, self.sim)
+            finally:
+                for _ in range(3):
+                    await asyncio.sleep(0)
+        self.loop.run_until_complete(go())
 
     def close(self):
         self._bc.dt = self._dt
@@ -127,7 +144,7 @@ def bounded_arrivals(reg, tier, seed):
                     trace.append((ev, pid))
                     before = {k: len(v) for k, v in env.got.items()}
                     try:
-                        env.proto.datagram_received(data, env.sim)
+                        env.recv(data)
                     except Exception as ex:  # noqa
                         fail("client/raise", f"reliable packet with an undecodable body: {type(ex).__name__} escaped datagram_received", {"trace": [str(t) for t in trace[-6:]]})
                     out = env.wire()
@@ -161,8 +178,9 @@ def bounded_arrivals(reg, tier, seed):
                     trace.append((ev, pid, reliable, acks))
                     before = {k: len(v) for k, v in env.got.items()}
                     before_named = {k: len(v) for k, v in env.got_named.items()}
+                    before_async = {k: {n_: len(v_) for n_, v_ in d_.items()} for k, d_ in env.got_async.items()}
                     try:
-                        env.proto.datagram_received(ser.serialize(m), env.sim)
+                        env.recv(ser.serialize(m))
                     except RuntimeError:
                         if raise_in != "region":
                             fail("client/raise", "subscriber failure escaped datagram_received", {"trace": [str(t) for t in trace[-6:]]})
@@ -175,6 +193,11 @@ def bounded_arrivals(reg, tier, seed):
                     for lvl in ("session", "region"):
                         n_new = len(env.got[lvl]) - before[lvl]
                         n_named = len(env.got_named[lvl]) - before_named[lvl]
+                        for nm_ in ("a1", "a2"):
+                            n_async = len(env.got_async[lvl][nm_]) - before_async[lvl][nm_]
+                            if n_async != n_new and raise_in is None:
+                                fail("client/dispatch", f"coroutine subscriber {nm_} at {lvl} level was run {n_async} times for a packet the plain subscriber "
+                                     f"got {n_new} times", {"trace": [str(t) for t in trace[-8:]], "level": lvl})
                         if n_named != n_new and not (lvl == "region" and raise_in == "session") and raise_in is None:
                             fail("client/dispatch", f"the by-name subscriber at {lvl} level got {n_named} deliveries where the wildcard subscriber got {n_new}",
                                  {"trace": [str(t) for t in trace[-8:]], "level": lvl})
@@ -210,7 +233,7 @@ def bounded_arrivals(reg, tier, seed):
                         m = Message("PacketAck", Block("Packets", ID=a), packet_id=rng.randrange(200, 300), direction=Direction.IN)
                     trace.append((ev, a))
                     try:
-                        env.proto.datagram_received(ser.serialize(m), env.sim)
+                        env.recv(ser.serialize(m))
                     except Exception as ex:  # noqa
                         if not (isinstance(ex, RuntimeError) and raise_in == "region"):
                             fail("client/raise", f"ack delivery raised {type(ex).__name__}: {ex}", {"trace": [str(t) for t in trace[-6:]]})
